@@ -231,7 +231,11 @@ CLAIMED = {
   text=("Lean theorems (lean/Props/C19.lean): downstream_channel_independent — the per-file scan is a function of exactly (AST, comment map, decoded lines): the channel is not an input of the model "
         "at all; bidi_complete (for ANY table and text: the scan finds a listed character iff one occurs on some line — comment, string, first or last line alike), bidi_position_valid (reported "
         "line = first line containing a listed character, the character stands at the reported 1-based column, no earlier line contains one), b613_iff, b613_total, gen_bidi_covers_published "
-        "(decide over the table regenerated from /repo). PARTIAL by nature: that CPython produces the same text/AST for LF vs CRLF, BOM vs none, transcoded files with a cookie, file vs stdin is runtime "
+        "(decide over the table regenerated from /repo); the split of the decoded text into the lines B613 iterates is modelled (lean/Bandit/Lines.lean `uniLines` = the universal-newline "
+        "decoder of a text-mode file, executed by the driver on the decoded text) and proved newline-style independent: lines_newline_style_independent / b613_newline_style_independent (LF, CRLF and lone-CR "
+        "renderings of a text have the same lines, hence the same B613 line and column), lines_partition_text (lines concatenate to the translated text, no line holds a CR, line i starts after the i-th "
+        "line end), bidi_anywhere_in_text_reported, no_bidi_no_report; tied by comparing `uniLines` with io.TextIOWrapper.readlines() on generated texts mixing every line-end style with form feed / "
+        "U+2028-class characters. PARTIAL by nature: that CPython produces the same text/AST for LF vs CRLF, BOM vs none, transcoded files with a cookie, file vs stdin is runtime "
         "behaviour — explored on every run: seeded programs x {file, stdin} x {LF, CRLF} x {BOM, none} x {utf-8, utf-8 cookie, latin-1, cp1252} through the real CLI must yield identical findings and "
         "locations; every bidi control character at 7 kinds of position x {file, stdin} x {LF, CRLF} must be B613 HIGH/MEDIUM on its line (and the Lean model must agree on line and column); files "
         "their declared encoding cannot decode must be skipped with a reason without disturbing other files. The stdin defect of the pinned commit (B613 re-opened '<stdin>' by name) was repaired "
@@ -245,7 +249,7 @@ CLAIMED = {
         "every construction) + b608_single_operation / b608_method / b608_fstring (the three shapes) + b608_plain_literal_silent; b610_table, b611_table, b701_table + autoescape_direct_keyword "
         "(breadth-first ast.walk: the call's own keyword decides), b702_table, b704_table_default, b506_table_partial / b614_table_partial (guard: module imported under its bare name) with "
         "NEG_b506_from_import / NEG_b614_from_import (kernel-checked witnesses of the known from-import defect), b202_table with NEG_b202_members_attr_call, b201/b612/b601/b102/b101 tables, "
-        "handler_table (B110/B112 x check_typed_exception); B703: b703_literal_silent, b703_param_reported, b703_unassigned_reported, b703_literal_assignment_silent, b703_fuel_monotone (more "
+        "handler_table (B110/B112 x check_typed_exception); import_gates_are_set_membership + visited_imports_accumulate + import_statements_commute (every check of every selected test set decides the same for two import lists with the same members: order and repetition of import statements cannot change a decision); B703: b703_literal_silent, b703_param_reported, b703_unassigned_reported, b703_literal_assignment_silent, b703_fuel_monotone (more "
         "recursion budget never changes an answer), b703_terminates_partial (until+1 activations suffice when assignments do not hand down later lines) and NEG_b703_diverges (for EVERY fuel the "
         "two-line self-assignment has no answer: CPython RecursionError), NEG_b703_crashes / NEG_b611_no_sql (C06 crash witnesses); one *_silent theorem per safe variant; decide +kernel end-to-end "
         "examples through the whole per-file pipeline. Tie to /repo on every run: literal tables inside the plugin functions and the IGNORECASE/\\s character facts are regenerated "
